@@ -109,6 +109,9 @@ TYPE_SPECS = [
      dict(vartype="character", strlen="10")),
     ("charstar", ["character(*)", "character(len=*)", "character*(*)", "character * (*)"], dict(vartype="character", strlen="*")),
     ("charcolon", ["character(:)", "character(len=:)"], dict(vartype="character", strlen=":")),
+    # a character literal inside the kind selector
+    ("charkindlit", ["character(len=10, kind=selected_char_kind('ascii'))", "character(10, selected_char_kind('ascii'))", "character(kind=selected_char_kind('ascii'), len=10)"],
+     dict(vartype="character", strlen="10", varkind="selected_char_kind('ascii')")),
     ("charlenkind", ["character(len=10,kind=ck)", "character(10,ck)", "character(kind=ck,len=10)", "character(10,kind=ck)",
                      "character(len=10, kind=ck)"], dict(vartype="character", strlen="10", varkind="ck")),
     # kind / length selectors that are expressions (function references with several arguments, operators)
